@@ -435,32 +435,28 @@ TRACE_CFG = "INIT TInit\nNEXT TNext\nCHECK_DEADLOCK FALSE\nPOSTCONDITION Accepte
 TRACE_JAVA = "-Xss1g -Dtlc2.tool.queue.IStateQueue=StateDeque"
 
 def _validate_chunk(args):
-    """One JVM: validate a chunk of events; on rejection drop the offending event and continue with the rest."""
+    """One JVM, one pass: validate a chunk of events; every event the specification refuses is reported (CalcTrace notes it and goes on)."""
     name, lines = args
     rejections, totals = [], {}
     wd = vlib.ensure(os.path.join(WORK, "tlc", name))
-    for attempt in range(6):
-        tp = os.path.join(wd, "trace.ndjson")
-        with open(tp, "w") as f:
-            f.write("".join(lines))
-        r = vlib.tlc("CalcTrace", TRACE_CFG, name, workers=1, env={"TRACE": tp}, java_opts=TRACE_JAVA, timeout=1800)
-        acc = [p for p in r["prints"] if p.startswith('<<"TRACE-ACCEPTED"')]
-        rej = [p for p in r["prints"] if p.startswith('<<"TRACE-REJECTED"')]
-        if acc:
-            inner = acc[0][len('<<"TRACE-ACCEPTED", '):-2]
-            totals = json.loads(json.loads(inner))
-            break
-        if rej:
-            body = "[" + rej[0][2:-2] + "]"
-            try:
-                arr = json.loads(body)
-                d, ev, diag = arr[1], json.loads(arr[2]), json.loads(arr[3])
-            except Exception as e:
-                raise ToolError("cannot parse trace rejection: %s (%s)" % (rej[0][:300], e))
-            rejections.append({"index": d, "event": ev, "diag": diag})
-            del lines[d - 1]
-            continue
-        raise ToolError("trace validation produced neither acceptance nor rejection (log %s, error %s)" % (r["log"], r["error"]))
+    tp = os.path.join(wd, "trace.ndjson")
+    with open(tp, "w") as f:
+        f.write("".join(lines))
+    r = vlib.tlc("CalcTrace", TRACE_CFG, name, workers=1, env={"TRACE": tp}, java_opts=TRACE_JAVA, timeout=1800)
+    acc = [p for p in r["prints"] if p.startswith('<<"TRACE-ACCEPTED"')]
+    rej = [p for p in r["prints"] if p.startswith('<<"TRACE-REJECTED"')]
+    if not acc:
+        raise ToolError("trace validation did not consume the trace (log %s, error %s)" % (r["log"], r["error"]))
+    totals = json.loads(json.loads(acc[0][len('<<"TRACE-ACCEPTED", '):-2]))
+    for rj in rej:
+        try:
+            arr = json.loads("[" + rj[2:-2] + "]")
+            d, ev, diag = arr[1], json.loads(arr[2]), json.loads(arr[3])
+        except Exception as e:
+            raise ToolError("cannot parse trace rejection: %s (%s)" % (rj[:300], e))
+        rejections.append({"index": d, "event": ev, "diag": diag})
+    if totals.get("refused", 0) > len(rejections):
+        log("trace chunk %s: %d events refused, %d printed in full" % (name, totals["refused"], len(rejections)))
     return {"totals": totals, "rejections": rejections, "n": len(lines)}
 
 PTRACE_CFG = "CONSTANTS MK <- PTKinds\nMN = 100000\nINIT TInit\nNEXT TNext\nCHECK_DEADLOCK FALSE\nCONSTRAINT Track\nPOSTCONDITION Accepted\n"
